@@ -339,7 +339,9 @@ class EquationSolver(object):
         # was unhappy if they were not set.
         had_evaluation_errors = False
         last_error = False
-        while relative_error > err_toler:
+        # NOTE: written as "not (error <= tolerance)" so that a NaN error (iterates that overflowed
+        # to inf/NaN) keeps iterating until the iteration cap raises, instead of ending the loop.
+        while not (relative_error <= err_toler):
             if is_trace_step:
                 #Logger('\t'.join([str(num_tries), str(relative_error)] + [str(initial[x]) for x in trace_keys]),
                 #       log='step')
@@ -405,27 +407,27 @@ class EquationSolver(object):
             Logger('Had evaluation errors')
             raise ValueError(last_error)
         Logger('Number of iterations: {0}'.format(num_tries), priority=3)
-        # Then: append values to the time series
-        varlist = [x[0] for x in self.Parser.Endogenous] + [x[0] for x in self.Parser.Lagged]
-        for var in varlist:
-            assert (len(self.TimeSeries[var]) == step)
-            self.TimeSeries[var].append(initial[var])
-        # Finally: augment with decorative variables
+        # Then: compute the decorative variables.
         # This is complicated as decorative variables may depend upon other decorative variables
         # Create a holding variable that lists the equations, and keep iterating through the list
+        # (Nothing is appended to the time series until every value of this step is known to be valid,
+        # so that a failure leaves all series with the same length.)
+        decoration_values = []
         vars_to_compute = []
         for var, eqn in self.Parser.Decoration:
             vars_to_compute.append((var, eqn))
         while len(vars_to_compute) > 0:
             failed = []
             for var, eqn in vars_to_compute:
-                assert (len(self.TimeSeries[var]) == step)
                 try:
                     val = eval(eqn, globals(), initial)
-                    initial[var] = val
-                    self.TimeSeries[var].append(val)
                 except NameError:
                     failed.append((var, eqn))
+                    continue
+                if val != val or abs(val) == float('inf'):
+                    raise ValueError('Non-finite value computed for variable ' + var)
+                initial[var] = val
+                decoration_values.append((var, val))
             # If we failed on every single decoration variable, something is wrong.
             if len(failed) == len(vars_to_compute):
                 # NOTE: We should not get here; it means that the decoration variables are
@@ -437,6 +439,14 @@ class EquationSolver(object):
                     Logger(out)
                 raise ValueError('Cannot solve decoration equations!\n'+out)
             vars_to_compute = failed
+        # Finally: append values to the time series
+        varlist = [x[0] for x in self.Parser.Endogenous] + [x[0] for x in self.Parser.Lagged]
+        for var in varlist:
+            assert (len(self.TimeSeries[var]) == step)
+            self.TimeSeries[var].append(initial[var])
+        for var, val in decoration_values:
+            assert (len(self.TimeSeries[var]) == step)
+            self.TimeSeries[var].append(val)
 
     def SolveEquation(self):
         if len(self.VariableList) == 0:
